@@ -638,6 +638,10 @@ fn install_hook() {
             .location()
             .map(|l| format!("{}:{}", l.file(), l.line()))
             .unwrap_or_else(|| "<unknown>".into());
+        if std::env::var("VERIF_BACKTRACE").is_ok() {
+            // debugging aid only
+            eprintln!("panic: {msg} at {loc}\n{}", std::backtrace::Backtrace::force_capture());
+        }
         FIRST_PANIC.with(|p| {
             let mut p = p.borrow_mut();
             if p.is_none() {
